@@ -2,6 +2,7 @@
 
 import math
 import time
+from decimal import Decimal, ROUND_HALF_UP, localcontext
 from typing import Any, Dict, List, Optional, Tuple, Union
 from dataclasses import dataclass
 
@@ -1762,131 +1763,109 @@ class VM:
     def _make_number_method(self, n: float, method: str) -> Any:
         """Create a bound number method."""
 
+        def non_finite():
+            """Text of NaN / +-Infinity, or None for a finite number."""
+            if math.isnan(n):
+                return "NaN"
+            if math.isinf(n):
+                return "-Infinity" if n < 0 else "Infinity"
+            return None
+
+        def sign_and_magnitude():
+            """('-' or '', exact decimal value of |n|); -0 counts as 0."""
+            magnitude = Decimal(n) if isinstance(n, int) else Decimal(float(n))
+            return ("-" if n < 0 else ""), abs(magnitude)
+
+        def scientific(magnitude, fraction_digits):
+            """(digits, exponent) of magnitude rounded half up to fraction_digits + 1
+            significant digits: magnitude ~ d.ddd x 10**exponent."""
+            if magnitude == 0:
+                return "0" * (fraction_digits + 1), 0
+            exponent = magnitude.adjusted()
+            scaled = magnitude.scaleb(fraction_digits - exponent)
+            digits = scaled.quantize(Decimal(1), rounding=ROUND_HALF_UP)
+            if digits >= Decimal(10) ** (fraction_digits + 1):
+                # Rounding carried into a new digit (9.99 -> 10.0)
+                exponent += 1
+                scaled = magnitude.scaleb(fraction_digits - exponent)
+                digits = scaled.quantize(Decimal(1), rounding=ROUND_HALF_UP)
+            return str(int(digits)).rjust(fraction_digits + 1, "0"), exponent
+
+        def exponential_text(sign, digits, exponent):
+            mantissa = digits[0] + ("." + digits[1:] if len(digits) > 1 else "")
+            return f"{sign}{mantissa}e{'+' if exponent >= 0 else '-'}{abs(exponent)}"
+
         def toFixed(*args):
             digits = to_integer(args[0]) if args else 0
             if digits < 0 or digits > 100:
                 raise JSRangeError("toFixed() digits out of range")
-            # Use JavaScript-style rounding (round half away from zero)
-            rounded = js_round(n, digits)
-            result = f"{rounded:.{digits}f}"
-            # Handle negative zero: if n was negative but rounded to 0, keep the sign
-            if n < 0 or (n == 0 and math.copysign(1, n) == -1):
-                if rounded == 0:
-                    result = "-" + result.lstrip("-")
-            return result
+            if non_finite() is not None or abs(n) >= 1e21:
+                return to_string(n)
+            sign, magnitude = sign_and_magnitude()
+            with localcontext() as ctx:
+                ctx.prec = 1200
+                fixed = magnitude.quantize(Decimal(1).scaleb(-digits), rounding=ROUND_HALF_UP)
+            text = f"{fixed:f}"
+            if fixed == 0:
+                sign = "-" if n < 0 else ""
+            return sign + text
 
         def toString(*args):
-            radix = to_integer(args[0]) if args else 10
+            radix = 10 if not args or args[0] is UNDEFINED else to_integer(args[0])
             if radix < 2 or radix > 36:
                 raise JSRangeError("toString() radix must be between 2 and 36")
-            if radix == 10:
-                if isinstance(n, float) and n.is_integer():
-                    return str(int(n))
-                return str(n)
+            if radix == 10 or non_finite() is not None:
+                return to_string(n)
             # Convert to different base
             if n < 0:
                 return "-" + self._number_to_base(-n, radix)
             return self._number_to_base(n, radix)
 
         def toExponential(*args):
-            import math
-
             if args and args[0] is not UNDEFINED:
                 digits = to_integer(args[0])
             else:
                 digits = None
 
-            if math.isnan(n):
-                return "NaN"
-            if math.isinf(n):
-                return "-Infinity" if n < 0 else "Infinity"
+            if non_finite() is not None:
+                return non_finite()
+            if digits is not None and (digits < 0 or digits > 100):
+                raise JSRangeError("toExponential() digits out of range")
 
-            if digits is None:
-                # Default precision - minimal representation
-                # Use repr-style formatting and convert to exponential
-                if n == 0:
-                    return "0e+0"
-                sign = "-" if n < 0 else ""
-                abs_n = abs(n)
-                exp = int(math.floor(math.log10(abs_n)))
-                mantissa = abs_n / (10**exp)
-                # Format mantissa without trailing zeros
-                mantissa_str = f"{mantissa:.15g}".rstrip("0").rstrip(".")
-                exp_sign = "+" if exp >= 0 else ""
-                return f"{sign}{mantissa_str}e{exp_sign}{exp}"
-            else:
-                if digits < 0 or digits > 100:
-                    raise JSRangeError("toExponential() digits out of range")
-                # Round to specified digits
-                if n == 0:
-                    return "0" + ("." + "0" * digits if digits > 0 else "") + "e+0"
-                sign = "-" if n < 0 else ""
-                abs_n = abs(n)
-                exp = int(math.floor(math.log10(abs_n)))
-                mantissa = abs_n / (10**exp)
-                # Round mantissa to specified digits using JS-style rounding
-                rounded = js_round(mantissa, digits)
-                if rounded >= 10:
-                    rounded /= 10
-                    exp += 1
-                if digits == 0:
-                    mantissa_str = str(int(js_round(rounded)))
+            sign, magnitude = sign_and_magnitude()
+            with localcontext() as ctx:
+                ctx.prec = 1200
+                if digits is None:
+                    # As many digits as necessary: the shortest round-trip digits
+                    shortest = Decimal(repr(abs(float(n))))
+                    text, exponent = scientific(shortest, 0)
+                    if shortest != 0:
+                        text = "".join(str(d) for d in shortest.as_tuple().digits).rstrip("0") or "0"
+                        exponent = shortest.adjusted()
                 else:
-                    mantissa_str = f"{rounded:.{digits}f}"
-                exp_sign = "+" if exp >= 0 else ""
-                return f"{sign}{mantissa_str}e{exp_sign}{exp}"
+                    text, exponent = scientific(magnitude, digits)
+            return exponential_text(sign, text, exponent)
 
         def toPrecision(*args):
-            import math
-
             if not args or args[0] is UNDEFINED:
-                if isinstance(n, float) and n.is_integer():
-                    return str(int(n))
-                return str(n)
+                return to_string(n)
+            if non_finite() is not None:
+                return non_finite()
 
             precision = to_integer(args[0])
             if precision < 1 or precision > 100:
                 raise JSRangeError("toPrecision() precision out of range")
 
-            if math.isnan(n):
-                return "NaN"
-            if math.isinf(n):
-                return "-Infinity" if n < 0 else "Infinity"
-
-            if n == 0:
-                if precision == 1:
-                    return "0"
-                return "0." + "0" * (precision - 1)
-
-            sign = "-" if n < 0 else ""
-            abs_n = abs(n)
-            exp = int(math.floor(math.log10(abs_n)))
-
-            # Decide if we use exponential or fixed notation
-            if exp < -6 or exp >= precision:
-                # Use exponential notation
-                mantissa = abs_n / (10**exp)
-                rounded = js_round(mantissa, precision - 1)
-                if rounded >= 10:
-                    rounded /= 10
-                    exp += 1
-                if precision == 1:
-                    mantissa_str = str(int(js_round(rounded)))
-                else:
-                    mantissa_str = f"{rounded:.{precision - 1}f}"
-                exp_sign = "+" if exp >= 0 else ""
-                return f"{sign}{mantissa_str}e{exp_sign}{exp}"
-            else:
-                # Use fixed notation
-                # Calculate digits after decimal
-                if exp >= 0:
-                    decimal_places = max(0, precision - exp - 1)
-                else:
-                    decimal_places = precision - 1 - exp
-                rounded = js_round(abs_n, decimal_places)
-                if decimal_places <= 0:
-                    return f"{sign}{int(rounded)}"
-                return f"{sign}{rounded:.{decimal_places}f}"
+            sign, magnitude = sign_and_magnitude()
+            with localcontext() as ctx:
+                ctx.prec = 1200
+                text, exponent = scientific(magnitude, precision - 1)
+            if exponent < -6 or exponent >= precision:
+                return exponential_text(sign, text, exponent)
+            if exponent >= 0:
+                whole, fraction = text[: exponent + 1], text[exponent + 1 :]
+                return sign + whole + ("." + fraction if fraction else "")
+            return sign + "0." + "0" * (-exponent - 1) + text
 
         def valueOf(*args):
             return n
